@@ -120,7 +120,8 @@ impl Name {
 // ---------- spec (from C16) ----------
 pub open spec fn is_marked_attr(a: AttrSpec) -> bool { a.ns == ResolveResult::Bound(JCMD) && name_id(a.lname) == NameId::Comment && annotation_raw(a.value) is Some }
 pub open spec fn has_marked(attrs: Seq<AttrSpec>) -> bool { exists|i: int| 0 <= i < attrs.len() && is_marked_attr(#[trigger] attrs[i]) }
-pub uninterp spec fn body_is_reject(seg: Seq<Item>) -> bool;
+// the statement's body contains the default action `then reject` (an empty <reject/> element)
+pub open spec fn body_is_reject(seg: Seq<Item>) -> bool { reject_seen(seg) }
 pub open spec fn expr_id(e: Option<MpFilterExpr>) -> Option<u64> { match e { Some(x) => Some(x.id), None => None } }
 pub open spec fn is_inactive_attr(a: AttrSpec) -> bool {
     a.ns == ResolveResult::Bound(JCMD) && name_id(a.lname) == NameId::Active && is_false_text(a.value)
@@ -167,7 +168,7 @@ pub broadcast proof fn lemma_only_allowed_push(s: Seq<Item>, it: Item)
 
 pub mod fetch {
 use super::*;
-broadcast use {xml_log_lemmas, lemma_only_allowed_push};
+broadcast use {xml_log_lemmas, lemma_only_allowed_push, lemma_reject_seen_push, lemma_reject_seen_empty};
 
 pub proof fn lemma_last_annotation_step(attrs: Seq<AttrSpec>, k: int)
     requires 0 <= k < attrs.len(),
@@ -189,6 +190,7 @@ pub proof fn lemma_inactive_step(attrs: Seq<AttrSpec>, k: int)
 impl Maybe<Candidate> {
 //@extract id=maybe_candidate_read_xml file=junos-agent/src/policies/fetch.rs impl=/impl ReadXml for Maybe<Candidate>/ fn=read_xml rules=R1,R2,R7,R8,R11,R12,R15,R17,R21 r7map=option constpats=JCMD,XNM vis=pub
 //@local maybe_filter_expr /let mut (\w+) = None;\s*(?:\/\/[^\n]*\n\s*)*\{ let mut it__0/
+//@local reject_policy /let mut name = None;\s*let mut (\w+) = false;/
 //@contract
         ensures res matches Ok(Maybe(sel)) ==> {
             let attrs = attrs_of(*start);
@@ -201,6 +203,10 @@ impl Maybe<Candidate> {
             // a selected statement has no other content than its name and the default reject action
             &&& (sel is Some ==> is_prefix(old(reader).log@, final(reader).log@) && only_allowed(seg_of(old(reader).log@, final(reader).log@)))   // OBL:C16.no_other_content
         },
+        // C03: a statement with a valid annotation and the default reject action is always selected - the reader never drops it
+        // for another reason (its selection decides whether compare() updates the installed policy or deletes it)
+        res matches Ok(Maybe(sel)) ==> ((!has_inactive(attrs_of(*start)) && last_annotation(attrs_of(*start)) is Some
+            && body_is_reject(seg_of(old(reader).log@, final(reader).log@)) && is_prefix(old(reader).log@, final(reader).log@)) ==> sel is Some),   // OBL:C03.fetch.annotated_statement_stays_managed
         // C03: a statement that is still marked as managed (it carries the bgpfu-fltr: prefix) must stay known to the agent even
         // if its expression does not parse - otherwise compare() takes the installed policy for "no longer managed" and deletes it
         res matches Ok(Maybe(sel)) ==> ((!has_inactive(attrs_of(*start)) && has_marked(attrs_of(*start)) && body_is_reject(seg_of(old(reader).log@, final(reader).log@))) ==> sel is Some),   // OBL:C03.fetch.marked_statement_stays_managed
@@ -217,11 +223,13 @@ impl Maybe<Candidate> {
             invariant
                 reader.remaining@.len() <= old(reader).remaining@.len(),
                 is_prefix(old(reader).log@, reader.log@), only_allowed(seg_of(old(reader).log@, reader.log@)),   // OBL:C16.body.only_name_and_reject
+                reject_policy <==> reject_seen(seg_of(old(reader).log@, reader.log@)),                 // OBL:C03.fetch.reject_flag_tracks_the_body
             decreases reader.remaining@.len(),                                                        // OBL:C14.candidate.body_loop_terminates
 //@loop 3
                         invariant
                             reader.remaining@.len() <= rem_at_then,
                             is_prefix(old(reader).log@, reader.log@), only_allowed(seg_of(old(reader).log@, reader.log@)),   // OBL:C16.body.only_reject_in_then
+                            reject_policy <==> reject_seen(seg_of(old(reader).log@, reader.log@)),    // OBL:C03.fetch.reject_flag_tracks_the_then_part
                         decreases reader.remaining@.len(),                                            // OBL:C14.candidate.then_loop_terminates
 //@before /let end = tag\.to_end\(\);/
                     let ghost rem_at_then = reader.remaining@.len();
